@@ -234,6 +234,62 @@ def bom_position_cases(ctx, L):
         if not want_err and codes:
             ctx.violation('select:bom-first-rejected', 'a leading byte-order mark produced errors %r' % (codes,), dict(bom=label))
 
+LONG_ENCODINGS = ['UTF-8', 'UTF-16LE', 'UTF-16BE', 'UTF-32LE', 'UTF-32BE']
+LONG_PADS = 19
+
+
+def long_document(pad):
+    """a CIF 2.0 document of about 5 000 characters (13 kB in UTF-8) whose values mix 1-, 2-, 3- and 4-byte
+    characters; the pad slides every multi-unit character across the byte offsets at which the reader refills"""
+    unit = 'a\u00e9\u20ac\U0001f600\u00fc\u4e2d\U00010348z'
+    lines = ['#\\#CIF_2.0', '#' + '.' * pad, 'data_long']
+    want = {}
+    for k in range(60):
+        v = (unit * 10)[k % 8:] + str(k)
+        lines.append("_v%d '%s'" % (k, v))
+        want['_v%d' % k] = v
+    return '\n'.join(lines) + '\n', want
+
+
+def long_document_cases(ctx, L, pad):
+    """"the same text supplied in any encoding recognised by its signature yields the same content" - for texts longer
+    than the reader's byte buffer, with characters of every encoded length at every phase relative to it"""
+    text, want = long_document(pad)
+    for enc in LONG_ENCODINGS:
+        for bom in ((0, 1) if enc == 'UTF-8' else (1,)):
+            data = encode(text, enc, bom)
+            res = parsing.parse(L, data, parsing.make_opts(), 'new', 'accept')
+            info = dict(long=dict(pad=pad, enc=enc, bom=bom))
+            try:
+                ctx.count('long_document_cases')
+                for k, d in res.problems:
+                    ctx.violation(k, d, info)
+                codes = [e[0] for e in res.errors]
+                d = D.dump(L, res.cif) if res.cif else None
+                vals = {}
+                if d and d[1]:
+                    for blk in d[1]:
+                        for loop in blk[2]:
+                            for pk in loop[2]:
+                                for n, v in pk:
+                                    vals[n] = v[1] if v[0] == 'char' else v
+                if vals != want:
+                    diff = sorted(n for n in set(vals) | set(want) if vals.get(n) != want.get(n))
+                    ctx.violation('select:long:content:%s' % enc, '%d-byte document in %s (bom %d, pad %d): %d of %d values differ from the text, first %s = %r (errors %r)'
+                                  % (len(data), enc, bom, pad, len(diff), len(want), diff[0], vals.get(diff[0]), codes[:6]), info)
+                    continue
+                other = [c for c in codes if c != CIF_WRONG_ENCODING]
+                if other or (enc == 'UTF-8' and codes):
+                    ctx.violation('select:long:spurious-error:%d:%s' % ((other or codes)[0], enc), 'unexpected error(s) %r for a %d-byte document in %s' % (codes[:6], len(data), enc), info)
+                    continue
+                if enc != 'UTF-8' and not codes:
+                    ctx.violation('select:long:wrong-encoding:missing:%s' % enc, 'CIF 2.0 content in %s was not reported as CIF_WRONG_ENCODING' % enc, info)
+                    continue
+                ctx.count('long_document_cases_agreeing')
+            finally:
+                if res.cif:
+                    L.destroy(res.cif)
+
 
 def worker(ctx):
     L = ctx.L
@@ -250,6 +306,8 @@ def worker(ctx):
         ctx.drain_events(dict(index=i, cell=list(allc[i])))
         if i == 0:
             bom_position_cases(ctx, L)
+        if i % 200 == 3 and i // 200 < LONG_PADS:
+            long_document_cases(ctx, L, i // 200)
         if i % 601 == 0:
             ctx.sample(dict(index=i, cell=list(allc[i]), decision=decide(allc[i], sysdefault)), 4)
     for suffix, detail in scope.finish():
@@ -272,6 +330,8 @@ def run(env):
             samples=res.samples, exhaustive=True, matrix_cells=n, determined_cells=res.count('determined_cells'),
             undetermined_cells_run_for_safety_only=res.count('undetermined_cells'),
             bom_position_cases=res.count('bom_position_cases'),
+            long_document_cases_13kB_in_5_encodings_x_pad=res.count('long_document_cases'),
+            long_document_cases_agreeing=res.count('long_document_cases_agreeing'),
             forced_system_default_cells_compared_with_forcing_it_by_name=res.count('forced_system_default_twins'),
             system_default_converter=sorted(res.sets.get('sysdefault', ())),
             observed_decisions=len(res.sets.get('cells', ())), crashes=res.crashes),
